@@ -327,3 +327,48 @@ def c04_r16(ctx):
     if n == 0:
         ctx.ok("no relied-upon parameter default in the files this property is anchored in")
     return n
+
+
+@rule("C04.R18", "a function annotated to return a value returns one on every path (no bare `return`, no `return None`, no falling off the end)", min_instances=5,
+      also=["C01", "C02", "C03", "C05", "C06", "C07", "C08", "C09", "C10", "C11", "C12", "C13", "C14", "C15", "C16", "C17", "C18", "C19"])
+def c04_r18(ctx):
+    import fnmatch
+    from ..util import cfg_of
+    repo = ctx.repo
+    pats = _anchor_files(ctx.prop)
+    n = 0
+    for fi in repo.all_functions():
+        if ctx.prop != "C04" and pats and not any(fnmatch.fnmatch(fi.module.relpath, p_) for p_ in pats):
+            continue
+        ann = fi.node.returns
+        if ann is None:
+            continue
+        at = ast.unparse(ann)
+        if any(w in at for w in ("None", "Optional", "Any", "Generator", "Iterator", "NoReturn", "Never")):
+            continue
+        if any(isinstance(x, (ast.Yield, ast.YieldFrom)) for x in ast.walk(fi.node)):
+            continue
+        body = [s_ for s_ in fi.node.body if not (isinstance(s_, ast.Expr) and isinstance(s_.value, ast.Constant))]
+        if not body or all(isinstance(s_, (ast.Pass, ast.Raise)) or (isinstance(s_, ast.Expr) and isinstance(s_.value, ast.Constant)) for s_ in body):
+            continue            # stubs / abstract methods
+        n += 1
+        bad = []
+        nested = {id(x) for f_ in ast.walk(fi.node) if f_ is not fi.node and isinstance(f_, (ast.FunctionDef, ast.AsyncFunctionDef, ast.Lambda)) for x in ast.walk(f_)}
+        for r in ast.walk(fi.node):
+            if isinstance(r, ast.Return) and id(r) not in nested and (r.value is None or (isinstance(r.value, ast.Constant) and r.value.value is None)):
+                bad.append(f"`return{'' if r.value is None else ' None'}` at line {getattr(r, 'lineno', '?')}")
+        try:
+            g = cfg_of(fi)
+            falls = [g.nodes[i] for i in g.pred().get(g.exit.id, []) if g.nodes[i].kind != "return"]
+            reach = g.reach([g.entry])
+            falls = [x for x in falls if x.id in reach]
+            if falls:
+                bad.append(f"falls off the end after line {falls[0].lineno}")
+        except Exception:
+            pass
+        if bad:
+            ctx.fail(key(fi, "returns a value"), f"{fi.qualname} is declared `-> {at}` but {'; '.join(bad[:2])}: callers get None where they use the result", fi.loc())
+        else:
+            ctx.ok(f"{fi.qualname} -> {at[:40]}: every path returns a value", fi.loc())
+    if n == 0:
+        ctx.ok("no function with a value-typed return annotation in the files this property is anchored in")
